@@ -1,20 +1,24 @@
 #!/bin/bash
 # usage: seedtest.sh <seeded-dir-name> <prop> [tier]
 # Applies seeded/<dir>/patch.diff to a scratch worktree of /repo HEAD (so that /repo itself
-# is not disturbed while other work is using it), runs the check against it, removes the worktree.
-# With SEED_INPLACE=1 the patch is applied to /repo itself and reverted afterwards.
+# is not disturbed while other work is using it), runs the check against it (evidence
+# redirected to a scratch dir so that committed evidence is not overwritten), removes the
+# worktree.  With SEED_INPLACE=1 the patch is applied to /repo itself and reverted afterwards.
 set -u
 d="/verif/seeded/$1"; prop="$2"; tier="${3:-quick}"
+ev=$(mktemp -d /tmp/seedev_XXXX)
 if [ "${SEED_INPLACE:-0}" = 1 ]; then
   cd /repo || exit 2
   git diff --quiet || { echo "repo dirty, refusing"; exit 2; }
   git apply "$d/patch.diff" || { echo "patch does not apply"; exit 2; }
-  (cd /verif && ./check "$prop" --tier "$tier" 2>&1 | tail -6); 
+  (cd /verif && IBLNPX_EVID="$ev" ./check "$prop" --tier "$tier" 2>&1 | tail -6) | tee "$d/check_${prop}_${tier}.txt"
   git -C /repo checkout -- .
 else
   w=$(mktemp -d /tmp/seedrun_XXXX); rmdir "$w"
   git -C /repo worktree add -q --detach "$w" HEAD || exit 2
   (cd "$w" && git apply "$d/patch.diff") || { echo "patch does not apply"; git -C /repo worktree remove --force "$w"; exit 2; }
-  (cd /verif && IBLNPX_REPO="$w" ./check "$prop" --tier "$tier" 2>&1 | tail -6)
+  (cd /verif && IBLNPX_EVID="$ev" IBLNPX_REPO="$w" ./check "$prop" --tier "$tier" 2>&1 | tail -6) | sed "s#$w#/repo#g" | tee "$d/check_${prop}_${tier}.txt"
   git -C /repo worktree remove --force "$w"
 fi
+if [ -d "$ev/replays" ]; then mkdir -p "$d/replays"; cp "$ev"/replays/* "$d/replays/" 2>/dev/null; fi
+rm -rf "$ev"
